@@ -21,6 +21,18 @@ def gen_cases(rng, tier):
     for lo, hi in ((0, 8), (8, 40), (40, 48), (48, 52), (52, 56), (56, 64)):   # one field all-ones, rest zero; and inverse
         a = bytearray(zero); a[lo:hi] = b'\xff' * (hi - lo); cases.append(bytes(a))
         b = bytearray(ones); b[lo:hi] = b'\x00' * (hi - lo); cases.append(bytes(b))
+    # byte-class fills: every field filled with one repeated byte value, for all 256 values (catches decoders that
+    # special-case a class of bytes: whitespace, NUL, 0xff, ASCII …), and whole records of one byte value
+    fields = ((0, 8), (8, 40), (40, 48), (48, 52), (52, 56), (56, 64))
+    for b in range(256):
+        cases.append(bytes([b]) * 64)
+        for lo, hi in fields:
+            for base in (zero, ones):
+                a = bytearray(base); a[lo:hi] = bytes([b]) * (hi - lo); cases.append(bytes(a))
+    ws = b' \t\n\r\x0b\x0c'
+    for _ in range(64):                                  # whitespace / printable mixes in the argument bytes
+        a = bytearray(rng.randbytes(64)); a[8:40] = bytes(rng.choice(ws) for _ in range(32)); cases.append(bytes(a))
+        a = bytearray(rng.randbytes(64)); a[8:40] = bytes(rng.randrange(32, 127) for _ in range(32)); cases.append(bytes(a))
     n = 2000 if tier == 'quick' else 60000
     for _ in range(n):
         cases.append(rng.randbytes(64))
